@@ -1,2 +1,4 @@
--- Root of the `ForsysModel` library: executable models (Mathlib-free) and property theorems.
+-- Root of the `ForsysModel` library: executable models (Mathlib-free), protocol driver modules, property theorems.
 import ForsysModel.Model
+import ForsysModel.Driver
+import ForsysModel.Props
